@@ -38,6 +38,15 @@ var replayDrivers = []replayDriver{
 		"cmd/thermal-recorder.renameTempRecording", "cmd/thermal-recorder.recordingFinalName", "cmd/thermal-recorder.init", "lemma-file temp_glob"}, "cmd/thermal-recorder", "boson_replay_test.go", "TestReplayFileRecorder"},
 }
 
+// drivers run as spot-checks in the thorough tier, per property
+var propertyDrivers = map[string][]string{
+	"C01": {"TestReplayProcessor", "TestReplayRing"}, "C02": {"TestReplayProcessor", "TestReplayRing"}, "C03": {"TestReplayProcessor"},
+	"C04": {"TestReplayProcessor"}, "C12": {"TestReplayProcessor", "TestReplayFileRecorder"}, "C17": {"TestReplayProcessor"},
+	"C13": {"TestReplayProcessor", "TestReplayBoson"}, "C05": {"TestReplayThrottle"}, "C06": {"TestReplayThrottle"},
+	"C07": {"TestReplayDetector"}, "C08": {"TestReplayDetector"}, "C09": {"TestReplayDetector"}, "C15": {"TestReplayDetector"},
+	"C10": {"TestReplayFileRecorder"}, "C11": {"TestReplayFileRecorder"}, "C14": {"TestReplayHeaders"}, "C19": {"TestReplayRing"}, "C20": {"TestReplayLimiter"},
+}
+
 // a failing obligation in the motion processor is often caused one layer down
 var replayFallback = map[string][]string{
 	"processor_replay_test.go": {"ring_replay_test.go", "detector_replay_test.go"},
